@@ -310,52 +310,14 @@ Proof.
 Qed.
 
 (* ------------------------------------------------------------------ __or__ ("join") *)
-(* The join is meant to over-approximate the union.  It does not: a missing bound (None = unbounded)
-   of one operand is REPLACED by the other operand's bound instead of staying None. *)
-Definition join_sound_statement : Prop :=
-  forall a b rv rho v, ir_or a (RRange b) = Ok rv ->
-    gamma a rho v \/ gamma b rho v -> gamma_val rv rho v.
-
-Lemma ir_or_refuted :
-  exists a b rv rho v, ir_or a (RRange b) = Ok rv /\ gamma a rho v /\ ~ gamma_val rv rho v.
-Proof.
-  exists (mkrange (IConst 0) (Some 0) None), (mkrange (IConst 0) (Some 3) (Some 3)).
-  eexists. exists (fun _ => 0), 10. split; [vm_compute; reflexivity|]. split.
-  - exists 0. split; [reflexivity|]. unfold in_itv; cbn [lo hi]; lia.
-  - cbn. intros [b [Hb Hi]]. cbn in Hb. injection Hb as <-. unfold in_itv in Hi; cbn [lo hi] in Hi; lia.
-Qed.
-
-Lemma join_sound_statement_false : ~ join_sound_statement.
-Proof.
-  intros J. destruct ir_or_refuted as [a [b [rv [rho [v [H [G N]]]]]]]. apply N. eapply J; eauto.
-Qed.
-
-(* even when every operand is bounded on both sides the unsound None-handling is reachable through a
-   chain of joins: differing bases give "unbounded" = (0, None, None), which the next join overwrites *)
-Lemma ir_or_chain_refuted :
-  exists a b c r1 r2 rho v,
-    lo a <> None /\ hi a <> None /\ lo b <> None /\ hi b <> None /\ lo c <> None /\ hi c <> None /\
-    ir_or a (RRange b) = Ok (RRange r1) /\ ir_or r1 (RRange c) = Ok (RRange r2) /\
-    gamma b rho v /\ ~ gamma r2 rho v.
-Proof.
-  exists (mkrange (IVar (mksym 1 1)) (Some 0) (Some 0)), (mkrange (IConst 0) (Some 3) (Some 3)),
-         (mkrange (IConst 0) (Some 5) (Some 5)).
-  eexists. eexists. exists (fun _ => 100), 3.
-  repeat (split; [cbn; congruence|]).
-  split; [vm_compute; reflexivity|]. split; [vm_compute; reflexivity|]. split.
-  - exists 0. split; [reflexivity|]. unfold in_itv; cbn [lo hi]; lia.
-  - intros [b [Hb Hi]]. cbn in Hb. injection Hb as <-. unfold in_itv in Hi; cbn [lo hi] in Hi; lia.
-Qed.
-
-(* what does hold: if the two bases that LoopIR_Compare identifies (by NAME) have the same value and
-   the operands agree on which sides are unbounded, the join contains both operands *)
-Lemma ir_or_partial : forall a b rv rho v,
+(* The join over-approximates the union of its operands provided the two bases that LoopIR_Compare
+   identifies (it compares Sym NAMES, not Syms) have the same value. *)
+Lemma ir_or_sound : forall a b rv rho v,
   ir_or a (RRange b) = Ok rv ->
   (match_e (base a) (base b) = true -> ieval rho (base a) = ieval rho (base b)) ->
-  (lo a = None <-> lo b = None) -> (hi a = None <-> hi b = None) ->
   gamma a rho v \/ gamma b rho v -> gamma_val rv rho v.
 Proof.
-  intros [ab al ah] [bb bl bh] rv rho v H Hm Hl Hh G. cbn [base lo hi] in *.
+  intros [ab al ah] [bb bl bh] rv rho v H Hm G. cbn [base lo hi] in *.
   destruct (match_e ab bb) eqn:Em.
   - specialize (Hm eq_refl).
     assert (G' : exists b, ieval rho ab = Some b /\ (in_itv al ah (v - b) \/ in_itv bl bh (v - b))).
@@ -363,21 +325,52 @@ Proof.
       rewrite Hm; auto. }
     clear G Hm. destruct G' as [b [Hb Hi]].
     unfold ir_or in H; cbn [base lo hi] in H; cbv beta zeta in H; rewrite Em in H.
-    destruct al as [al|], bl as [bl|];
-      try (exfalso; destruct Hl as [A B]; first [ discriminate (A eq_refl) | discriminate (B eq_refl) ]);
-    destruct ah as [ah|], bh as [bh|];
-      try (exfalso; destruct Hh as [A B]; first [ discriminate (A eq_refl) | discriminate (B eq_refl) ]);
-    clear Hl Hh; break_in H; inv_ok H; cbn [gamma_val]; exists b; (split; [assumption|]);
-    unfold in_itv in *; cbn [lo hi] in *; lia.
+    destruct al as [al|], bl as [bl|], ah as [ah|], bh as [bh|];
+      break_in H; inv_ok H; cbn [gamma_val]; exists b; (split; [assumption|]);
+      unfold in_itv in *; cbn [lo hi] in *; lia.
   - unfold ir_or in H; cbn [base lo hi] in H; cbv beta zeta in H; rewrite Em in H.
     break_in H; inv_ok H; cbn [gamma_val]; exists 0; (split; [reflexivity|]);
     unfold create_unbounded, in_itv; cbn [lo hi]; auto.
 Qed.
 
-Example ir_or_partial_nonvacuous :
-  exists rv, ir_or (mkrange (IConst 0) (Some 0) (Some 2)) (RRange (mkrange (IConst 0) (Some 5) (Some 7))) = Ok rv
-             /\ gamma_val rv (fun _ => 0) 6.
-Proof. eexists. split; [vm_compute; reflexivity|]. exists 0. split; [reflexivity|]. unfold in_itv; cbn [lo hi]; lia. Qed.
+Example ir_or_sound_nonvacuous :
+  exists rv, ir_or (mkrange (IConst 0) (Some 0) None) (RRange (mkrange (IConst 0) (Some 5) (Some 7))) = Ok rv
+             /\ gamma_val rv (fun _ => 0) 60.
+Proof.
+  eexists. split; [vm_compute; reflexivity|]. exists 0. split; [reflexivity|].
+  unfold in_itv; cbn [lo hi]. lia.
+Qed.
+
+(* Without that hypothesis the join is NOT sound: two different Syms with the same name are taken to
+   be the same base.  Reachable through the API: divide_loop(p, "i", 4, ["o", "n"]) in a proc with a
+   size argument n, then bounds_inference over x[n_loop], x[n_size]. *)
+Lemma ir_or_name_refuted :
+  exists a b rv rho v, ir_or a (RRange b) = Ok rv /\ gamma b rho v /\ ~ gamma_val rv rho v.
+Proof.
+  exists (mkrange (IVar (mksym 1 1)) (Some 0) (Some 0)), (mkrange (IVar (mksym 1 2)) (Some 0) (Some 0)).
+  eexists. exists (fun s => if sid s =? 2 then 10 else 0), 10. split; [vm_compute; reflexivity|]. split.
+  - exists 10. split; [reflexivity|]. unfold in_itv; cbn [lo hi]. lia.
+  - cbn. intros [b [Hb Hi]]. cbn in Hb. injection Hb as <-. unfold in_itv in Hi; cbn [lo hi] in Hi. lia.
+Qed.
+
+(* match_e implies equal values as soon as equally named symbols have equal values *)
+Definition name_determined (rho : valuation) : Prop :=
+  forall x y, sname x = sname y -> rho x = rho y.
+
+Lemma bop_eqb_eq : forall a b, bop_eqb a b = true -> a = b.
+Proof. destruct a, b; cbn; congruence. Qed.
+
+Lemma match_e_eval : forall rho, name_determined rho ->
+  forall a b, match_e a b = true -> ieval rho a = ieval rho b.
+Proof.
+  intros rho ND a. induction a as [x|c|a IHa|op a1 IH1 a2 IH2]; intros b H; destruct b; cbn [match_e] in H;
+    try discriminate; cbn [ieval].
+  - apply Z.eqb_eq in H. rewrite (ND _ _ H). reflexivity.
+  - apply Z.eqb_eq in H. subst. reflexivity.
+  - rewrite (IHa _ H). reflexivity.
+  - apply andb_true_iff in H as [H H2]. apply andb_true_iff in H as [H0 H1].
+    apply bop_eqb_eq in H0. subst. rewrite (IH1 _ H1), (IH2 _ H2). reflexivity.
+Qed.
 
 (* ------------------------------------------------------------------ _check_range *)
 Definition cmp_holds (op : cmpop) (x y : Z) : Prop :=
